@@ -230,3 +230,197 @@ def enclosure_contract(prop, tier, seed):
         res["violations"].append({"replay": os.path.relpath(path, ROOT), "confirmed": True,
                                   "what": "bounded: enclosure does not contain the placed shape: %s" % json.dumps(f0)[:400]})
     return res
+
+
+# ------------------------------------------------------------------------------ C06: spatial lookups vs independent geometry
+
+
+def _pip(pt, ring):
+    """even-odd point in polygon; returns None when pt is within 1e-7 of an edge (boundary points are not compared)"""
+    x, y = pt
+    inside = False
+    n = len(ring)
+    for i in range(n):
+        x1, y1 = ring[i]
+        x2, y2 = ring[(i + 1) % n]
+        dx, dy = x2 - x1, y2 - y1
+        L2 = dx * dx + dy * dy
+        if L2 > 0:
+            t = max(0.0, min(1.0, ((x - x1) * dx + (y - y1) * dy) / L2))
+            if math.hypot(x - (x1 + t * dx), y - (y1 + t * dy)) < 1e-7:
+                return None
+        if (y1 > y) != (y2 > y):
+            xi = x1 + (y - y1) * (x2 - x1) / (y2 - y1)
+            if xi > x:
+                inside = not inside
+    return inside
+
+
+def _seg_dist(p, a, b):
+    dx, dy = b[0] - a[0], b[1] - a[1]
+    L2 = dx * dx + dy * dy
+    t = 0.0 if L2 == 0 else max(0.0, min(1.0, ((p[0] - a[0]) * dx + (p[1] - a[1]) * dy) / L2))
+    return math.hypot(p[0] - (a[0] + t * dx), p[1] - (a[1] + t * dy))
+
+
+def _seg_x(a, b, c, d):
+    def o(p, q, r):
+        return (q[0] - p[0]) * (r[1] - p[1]) - (q[1] - p[1]) * (r[0] - p[0])
+    o1, o2, o3, o4 = o(a, b, c), o(a, b, d), o(c, d, a), o(c, d, b)
+    if min(abs(o1), abs(o2), abs(o3), abs(o4)) < 1e-9:
+        return None  # touching / collinear: not compared
+    return (o1 > 0) != (o2 > 0) and (o3 > 0) != (o4 > 0)
+
+
+def _poly_x(r1, r2):
+    """do two simple polygons intersect? None when the answer hinges on touching boundaries"""
+    for i in range(len(r1)):
+        for j in range(len(r2)):
+            x = _seg_x(r1[i], r1[(i + 1) % len(r1)], r2[j], r2[(j + 1) % len(r2)])
+            if x is None:
+                return None
+            if x:
+                return True
+    a, b = _pip(r1[0], r2), _pip(r2[0], r1)
+    if a is None or b is None:
+        return None
+    return bool(a or b)
+
+
+def spatial_contract(prop, tier, seed):
+    """C06 is proved RELATIVE to shapely's predicates (uninterpreted in the model).  That shapely, as the library uses it
+    (buffered polygons, STRtree, candidate filtering), answers like plain planar geometry is checked BOUNDED, natively:
+    seeded pseudo-random networks of 6 curved, partly overlapping and adjacent lanelets, built over four routes
+    (create_from_lanelet_list, lanelet by lanelet, deepcopy, pickle), against an independent even-odd point-in-polygon /
+    segment-intersection implementation: find_lanelet_by_position and Lanelet.contains_points for N query points (interior,
+    exterior, far away), find_lanelet_by_shape for rectangles, circles and polygons.  Points / shapes within 1e-7 of a
+    boundary are skipped (boundary semantics are not part of the comparison).  Bound: exactly these networks and queries."""
+    import copy
+    import pickle
+    import warnings
+
+    from commonroad.geometry.shape import Circle, Polygon, Rectangle
+    from commonroad.scenario.lanelet import Lanelet, LaneletNetwork
+
+    from .driver import load_known_findings
+
+    rng = random.Random(104729 * (seed + 1))
+    n_nets = 10 if tier != "thorough" else 40
+    n_pts = 600 if tier != "thorough" else 2500
+    n_shapes = 120 if tier != "thorough" else 500
+    known = {k.get("region"): k for k in load_known_findings() if k.get("property") == prop and k.get("obligation") == "C06/bounded/spatial"}
+    evaluations = 0
+    failures = {}
+
+    def mk_lanelet(lid, start, heading):
+        pts = [np.array(start)]
+        h = heading
+        for _ in range(rng.choice((2, 3))):
+            h += rng.uniform(-0.4, 0.4)
+            pts.append(pts[-1] + rng.uniform(4, 9) * np.array([math.cos(h), math.sin(h)]))
+        w = rng.uniform(2.0, 4.0)
+        left, right = [], []
+        for i, p in enumerate(pts):
+            d = (pts[min(i + 1, len(pts) - 1)] - pts[max(i - 1, 0)])
+            nrm = np.array([-d[1], d[0]]) / np.linalg.norm(d)
+            left.append(p + nrm * w / 2)
+            right.append(p - nrm * w / 2)
+        return Lanelet(np.array(left), np.array(pts), np.array(right), lid)
+
+    def fail(key, rec):
+        fl = failures.setdefault(key, [])
+        if len(fl) < 3:
+            fl.append(rec)
+
+    with warnings.catch_warnings():
+        warnings.simplefilter("ignore")
+        for k in range(n_nets):
+            lanes = []
+            for i in range(6):
+                if i and rng.random() < 0.5:  # adjacent / overlapping: start near an existing lanelet
+                    base = lanes[rng.randrange(len(lanes))]
+                    start = base.center_vertices[rng.randrange(len(base.center_vertices))] + np.array([rng.uniform(-2, 2), rng.uniform(-2, 2)])
+                else:
+                    start = np.array([rng.uniform(-20, 20), rng.uniform(-20, 20)])
+                lanes.append(mk_lanelet(100 + i, start, rng.uniform(0, 2 * math.pi)))
+            rings = {la.lanelet_id: [tuple(v) for v in np.concatenate((la.right_vertices, np.flip(la.left_vertices, 0)))] for la in lanes}
+            routes = {"create_from_lanelet_list": LaneletNetwork.create_from_lanelet_list(copy.deepcopy(lanes))}
+            net2 = LaneletNetwork()
+            for la in copy.deepcopy(lanes):
+                net2.add_lanelet(la)
+            routes["add_lanelet one by one"] = net2
+            routes["deepcopy"] = copy.deepcopy(routes["create_from_lanelet_list"])
+            routes["pickle"] = pickle.loads(pickle.dumps(net2))
+            pts = [np.array([rng.uniform(-35, 35), rng.uniform(-35, 35)]) for _ in range(n_pts)]
+            pts += [la.center_vertices[1] for la in lanes] + [np.array([1e4, -1e4]), np.array([-500.0, 3.0])]
+            for rname, net in routes.items():
+                got = net.find_lanelet_by_position(pts)
+                for p, g in zip(pts, got):
+                    truth = {lid: _pip(tuple(p), ring) for lid, ring in rings.items()}
+                    if any(v is None for v in truth.values()):
+                        continue
+                    evaluations += 1
+                    exp = {lid for lid, v in truth.items() if v}
+                    if set(g) != exp:
+                        fail("find_lanelet_by_position", {"route": rname, "network": k, "point": [float(x) for x in p], "returned": sorted(g), "geometry says": sorted(exp),
+                                                          "lanelet rings": {str(i): [list(map(float, v)) for v in r] for i, r in rings.items() if i in (set(g) ^ exp)}})
+                for la in net.lanelets[:2]:
+                    cp = la.contains_points(np.array(pts[:60]))
+                    for p, c in zip(pts[:60], cp):
+                        t = _pip(tuple(p), rings[la.lanelet_id])
+                        if t is None:
+                            continue
+                        evaluations += 1
+                        if bool(c) != t:
+                            fail("Lanelet.contains_points", {"route": rname, "lanelet": la.lanelet_id, "point": [float(x) for x in p], "returned": bool(c), "geometry says": t})
+            net = routes["create_from_lanelet_list"]
+            for _ in range(n_shapes):
+                c = np.array([rng.uniform(-30, 30), rng.uniform(-30, 30)])
+                kind = rng.choice(("rectangle", "circle", "polygon"))
+                if kind == "rectangle":
+                    sh = Rectangle(rng.uniform(1, 8), rng.uniform(0.5, 4), c, rng.uniform(-3, 3))
+                    ring = [tuple(v) for v in sh.vertices[:-1]]
+                elif kind == "polygon":
+                    ring = [tuple(c + np.array(v)) for v in ((0, 0), (rng.uniform(2, 6), 0.5), (rng.uniform(1, 5), rng.uniform(2, 6)))]
+                    sh = Polygon(np.array(ring))
+                else:
+                    r = rng.uniform(0.5, 5)
+                    sh = Circle(r, c)
+                    ring = None
+                got = set(net.find_lanelet_by_shape(sh))
+                exp, skip = set(), False
+                for lid, lr in rings.items():
+                    if ring is not None:
+                        x = _poly_x(ring, lr)
+                    else:
+                        dmin = min(_seg_dist(c, lr[i], lr[(i + 1) % len(lr)]) for i in range(len(lr)))
+                        ins = _pip(tuple(c), lr)
+                        x = None if (ins is None or abs(dmin - sh.radius) < 1e-7) else bool(ins or dmin < sh.radius)
+                    if x is None:
+                        skip = True
+                        break
+                    if x:
+                        exp.add(lid)
+                if skip:
+                    continue
+                evaluations += 1
+                if got != exp:
+                    fail("find_lanelet_by_shape,query=%s" % kind, {"network": k, "shape": ("Circle(%r, %r)" % (sh.radius, list(map(float, c)))) if ring is None else ("%s with ring %r" % (kind, [list(map(float, v)) for v in ring])),
+                                                                    "returned": sorted(got), "geometry says": sorted(exp),
+                                                                    "lanelet rings": {str(i): [list(map(float, v)) for v in r] for i, r in rings.items() if i in (got ^ exp)}})
+    res = {"bounded": [{
+        "name": "spatial lookups agree with independent planar geometry (shapely as used by the library)", "label": "bounded",
+        "bound": "%d seeded networks of 6 lanelets x 4 construction routes x %d query points, %d query shapes per network; boundary cases within 1e-7 skipped" % (n_nets, n_pts + 8, n_shapes),
+        "evaluations": evaluations, "distinct_nontrivial": n_nets * 4, "failures": sum(len(v) for v in failures.values()),
+    }], "violations": [], "known": []}
+    for key, fl in failures.items():
+        if key in known:
+            res["known"].append("%s [C06/bounded/spatial, %s]" % (known[key]["text"], key))
+            continue
+        os.makedirs(os.path.join(ROOT, "replays"), exist_ok=True)
+        path = os.path.join(ROOT, "replays", "%s-bounded-spatial-%s.json" % (prop, re.sub(r"[^A-Za-z0-9]+", "_", key)))
+        with open(path, "w") as fh:
+            json.dump({"property": prop, "obligation": "C06/bounded/spatial (%s)" % key, "kind": "bounded run-time contract evaluation", "failing_inputs": fl,
+                       "replay": "build the lanelets from the listed rings (right boundary + reversed left boundary) and repeat the query"}, fh, indent=1, default=str)
+        res["violations"].append({"replay": os.path.relpath(path, ROOT), "confirmed": True, "what": "bounded: %s disagrees with planar geometry: %s" % (key, json.dumps(fl[0], default=str)[:400])})
+    return res
